@@ -482,7 +482,7 @@ def check(ctx, case):
 
 def shard_main(ctx):
     from hypothesis import given
-    n = {"quick": 250, "thorough": 8000}[ctx.tier]
+    n = {"quick": 500, "thorough": 15000}[ctx.tier]
 
     @given(cases())
     def test(case):
